@@ -259,7 +259,8 @@ Definition in_ext (m : str) : str := match lookup_ext m ext_table with Some (i, 
 Definition out_ext (m : str) : str := match lookup_ext m ext_table with Some (_, o) => o | None => s2l ".out" end.
 
 Record content := mkContent { c_normal : bool; c_producer : request }.   (* an output file *)
-Inductive fkind := KInput | KOutput (c : content) | KSide.
+Inductive fkind := KInput | KOutput (c : content) | KSide
+| KTraj (c : content).       (* <name>_opt_trj.zip written by autodE's own optimiser (CalculationExecutorO) *)
 Record file := mkFile { f_name : str; f_owner : str; f_kind : fkind }.   (* owner = name of the calculation that wrote it *)
 Definition fsys := list file.
 Definition fs_remove (nm : str) (fs : fsys) : fsys := filter (fun f => negb (str_eqb (f_name f) nm)) fs.
@@ -337,6 +338,33 @@ Definition exec_op (st : state) (o : op) : state * obs :=
   let res := stage_result fs2 outF in
   let fs3 := stage_cleanup (o_cm o) (snd res) N inputs outF fs2 in
   (mkState R1 fs3, mkObs N (negb skip) (fst (fst res)) (snd (fst res))).
+
+(* ------------------------------------------------------------------ optimisations with autodE's own optimisers *)
+(* CalculationExecutorO (executors.py:343-474): the name is made unique in __init__ (:350); run()
+   reloads <name>_opt_trj.zip when it exists (:357-360) and otherwise runs the optimiser, which
+   saves that trajectory and prints <name>_opt_trj.xyz (:364-382).  The method does not use
+   external io, so clean_up is a no-op (:188-189) and nothing else is written. *)
+Definition trj_name (N : str) : str := N ++ s2l trj_suffix.
+Definition trj_xyz (N : str) : str := N ++ s2l "_opt_trj.xyz".
+Definition exec_opt (st : state) (r : request) : state * obs :=
+  let R1 := fst (reg_step (st_reg st) r) in
+  let N := snd (reg_step (st_reg st) r) in
+  match fs_find (st_fs st) (trj_name N) with
+  | Some (mkFile _ _ (KTraj c)) => (mkState R1 (st_fs st), mkObs N false (Some (c_producer c)) false)
+  | Some _ => (mkState R1 (st_fs st), mkObs N false None true)      (* not a trajectory: the reload fails *)
+  | None => (mkState R1 (fs_write (mkFile (trj_xyz N) N KSide)
+                          (fs_write (mkFile (trj_name N) N (KTraj (mkContent true r))) (st_fs st))),
+             mkObs N true (Some r) false)
+  end.
+(* a history may mix both kinds of calculation *)
+Inductive gop := GExt (o : op) | GOpt (r : request).
+Definition exec_gop (st : state) (g : gop) : state * obs :=
+  match g with GExt o => exec_op st o | GOpt r => exec_opt st r end.
+Fixpoint run_gops (st : state) (gs : list gop) : state * list obs :=
+  match gs with
+  | [] => (st, [])
+  | g :: t => let '(st1, ob) := exec_gop st g in let '(st2, obs) := run_gops st1 t in (st2, ob :: obs)
+  end.
 
 Fixpoint run_ops (st : state) (ops : list op) : state * list obs :=
   match ops with
